@@ -528,7 +528,7 @@ def run(ctx, col: Collector):
                 if a.kind == 'internal' or a.node is None:
                     continue
                 pos = positional_reads(a)
-                if pos and value_action(g) is a:
+                if pos and value_action(g) is a and not gt.is_comment(g):       # (an action on the comment token itself works on the comment text by design)
                     inner = gt.unsuppressed_comments(g)
                     n += 1
                     col.check(not inner, 'C14-inert', f'positional:{a.name[:40]}@{g.module.split(".")[-1]}:{g.line}',
@@ -583,6 +583,53 @@ def run(ctx, col: Collector):
                                        o.msg + (' (the blueprint comparison includes the comment field, so a comment decides whether the declaration is kept)' if o.status == 'refuted' else ''),
                                        o.file, o.line, o.extra))
         col.floor('C14-inert', 'collection obligations', m, 4)
+        # ... nor whether a declaration is accepted: a guard of the form `if X in self.<collection>: raise` compares model objects with the generated equality, which
+        # covers the `comment` attribute (for every class but Reference).  It is harmless only next to a guard on the NAME that rejects the same duplicates whatever
+        # their comments are - otherwise two declarations that differ in a comment only are accepted where the same two without comments are rejected.
+        from ..inline import field_types
+        from .common import expanded
+        eq_ignores = {}
+        for ci in idx.classes.values():
+            if not ci.module.startswith(('pydbml._classes', 'pydbml.database')):
+                continue
+            init = idx.lookup_method(ci.id, '__init__')
+            has_comment = init is not None and any(a.arg == 'comment' for a in init.node.args.args + init.node.args.kwonlyargs)
+            dcf = idx.class_attr(ci.id, 'dont_compare_fields')
+            ignored = set(idx.const_tuple(dcf) or ()) if dcf is not None else set()
+            own_eq = any('__eq__' in c.methods for c in idx.mro(ci.id) if c.name not in ('SQLObject',))
+            eq_ignores[ci.id] = (not has_comment) or ('comment' in ignored) or own_eq
+        k = 0
+        for fi in idx.all_funcs():
+            if not fi.module.startswith(('pydbml._classes', 'pydbml.database')) or not isinstance(fi.node, ast.FunctionDef) or fi.cls is None:
+                continue
+            fx = expanded(ctx, fi.module, fi.qualname)
+            guards = []
+            name_guard = False
+            for n in ast.walk(fx.node):
+                if not (isinstance(n, ast.If) and any(isinstance(x, ast.Raise) for b in n.body for x in ast.walk(b))):
+                    continue
+                for c in ast.walk(n.test):
+                    if isinstance(c, ast.Compare) and len(c.ops) == 1 and isinstance(c.ops[0], ast.In) and isinstance(c.comparators[0], ast.Attribute) \
+                            and isinstance(c.comparators[0].value, ast.Name) and c.comparators[0].value.id == 'self' and isinstance(c.left, ast.Name):
+                        classes = field_types(idx, fi.cls, c.comparators[0].attr)
+                        if classes:
+                            guards.append((n, c, classes))
+                    if isinstance(c, ast.Compare) and any(isinstance(x, ast.Attribute) and x.attr in ('name', 'full_name', 'alias') for x in ast.walk(c)):
+                        name_guard = True
+            for n, c, classes in guards:
+                k += 1
+                sens = sorted(idx.classes[x].name for x in classes if not eq_ignores.get(x, True))
+                cons = f'accept:{fi.qualname}:{norm(c)}'
+                if not sens:
+                    col.ok('C14-inert', cons, f'the equality used by `{norm(c)}` does not cover comments', node=c, file=fi.file)
+                elif name_guard:
+                    col.ok('C14-inert', cons, f'`{norm(c)}` compares comments too, but a guard on the name in the same function rejects duplicates whatever their comments',
+                           node=c, file=fi.file)
+                else:
+                    col.bad('C14-inert', cons, f'{fi.qualname} rejects a duplicate with `{norm(c)}` only: {"/".join(sens)} equality covers the `comment` attribute and no guard '
+                            f'on the name backs it up, so two declarations that differ in a comment only are both accepted while the same two without the comment are '
+                            f'rejected - a comment changes what the document parses to', node=c, file=fi.file)
+        col.floor('C14-inert', 'duplicate guards by object equality', k, 3)
     guarded(col, 'C14-inert', 'equality', inert_equality)
 
 
